@@ -211,6 +211,7 @@ Definition del_tok (idx : N) (p : profile) : profile :=
 Definition set_botp (v : option N) (p : profile) : profile := {| toks := toks p; botp := v; last_totp := last_totp p |}.
 Definition set_last (c : N) (p : profile) : profile := {| toks := toks p; botp := botp p; last_totp := c |}.
 Definition is_some {A} (o : option A) : bool := match o with Some _ => true | None => false end.
+Definition oN_eq (a b : option N) : bool := match a, b with Some x, Some y => x =? y | None, None => true | _, _ => false end.
 
 (* app.go u2fTokenManagerHandler: Load; index known?; modify; Save *)
 Definition tok_handler (u idx : N) (f : profile -> profile) : list act :=
@@ -230,8 +231,8 @@ Inductive hid :=
 | HGenBoot (u otp : N)               (* adminHandlers.go generateBootstrapOTP *)
 | HTotpAuth (u now counter : N) (valid : bool)   (* 2fa_totp.go TOTPAuthHandler -> validateUserTOTP *)
 | HU2fSignReq (u chal : N)           (* 2fa_u2f.go u2fSignRequest *)
-| HU2fSignResp (u : N) (valid : bool) (* 2fa_u2f.go u2fSignResponse *)
-| HU2fSignRespOld (u : N) (valid : bool) (* the same before the fix: delete outside the mutex *)
+| HU2fSignResp (u c : N)             (* 2fa_u2f.go u2fSignResponse; c = the challenge the presented assertion answers *)
+| HU2fSignRespOld (u c : N)          (* the same before the fix: delete outside the mutex *)
 | HSpacing (u now : N).              (* only the spacing test-and-set *)
 
 Definition has_enabled_tok (o : option profile) : bool :=
@@ -257,19 +258,19 @@ Definition handler (h : hid) : list act :=
   | HTotpAuth u now counter valid =>
       [Load u] ++ spacing u now ++
       [Check (fun o => match o with Some p => negb (last_totp p =? counter) | None => true end) 401;
-       Soft (fun _ => valid) 401;
+       Soft (fun o => valid && is_some o) 401;   (* a code matches only a TOTP token of the loaded profile *)
        Save u (set_last counter);
        Lock L_totp; MapSet M_totpRate u now; Unlock L_totp;
        Respond 200]
   | HU2fSignReq u chal =>
       [Load u; Check has_enabled_tok 400; Lock L_state; MapSet M_localAuth u chal; Unlock L_state; Respond 200]
-  | HU2fSignResp u valid =>
+  | HU2fSignResp u c =>
       [Load u; Check has_enabled_tok 400; Lock L_state; MapGet M_localAuth u; Unlock L_state;
-       CheckMap is_some 400; Check (fun _ => valid) 500;
+       CheckMap is_some 400; CheckMap (fun m => oN_eq m (Some c)) 500;
        Lock L_state; MapDel M_localAuth u; Unlock L_state; Respond 200]
-  | HU2fSignRespOld u valid =>
+  | HU2fSignRespOld u c =>
       [Load u; Check has_enabled_tok 400; Lock L_state; MapGet M_localAuth u; Unlock L_state;
-       CheckMap is_some 400; Check (fun _ => valid) 500;
+       CheckMap is_some 400; CheckMap (fun m => oN_eq m (Some c)) 500;
        MapDel M_localAuth u; Respond 200]
   | HSpacing u now => spacing u now ++ [Respond 200]
   end.
@@ -304,7 +305,6 @@ Definition run_seg (w : world) (sched : list nat) : world := fold_left seg sched
 Definition tok_eqb (a b : token) : bool := (t_idx a =? t_idx b) && Bool.eqb (t_enabled a) (t_enabled b) && (t_name a =? t_name b).
 Fixpoint toks_eqb (a b : list token) : bool :=
   match a, b with [], [] => true | x :: a', y :: b' => tok_eqb x y && toks_eqb a' b' | _, _ => false end.
-Definition oN_eq (a b : option N) : bool := match a, b with Some x, Some y => x =? y | None, None => true | _, _ => false end.
 Definition profile_eqb (a b : profile) : bool := toks_eqb (toks a) (toks b) && oN_eq (botp a) (botp b) && (last_totp a =? last_totp b).
 Definition oprofile_eqb (a b : option profile) : bool :=
   match a, b with Some x, Some y => profile_eqb x y | None, None => true | _, _ => false end.
